@@ -9,6 +9,13 @@ Model of the line format of pagexml/helper/text_helper.py and pagexml/helper/pag
 and the traversals they rely on (PageXMLTextRegion.get_inner_text_regions / get_lines /
 num_text_regions / num_lines, PageXMLScan.add_child / PageXMLTextRegion.add_child).
 
+The string tables of the source (default header lists of writer and reader, record keys, keys
+looked up when documents are rebuilt, separators of the older format) are regenerated from the
+working tree on every run (Generated/C14.lean).  The DEFAULT HEADER LISTS of the model ARE the
+generated ones (`allHeaders`, `defaultHeaders`): the model follows the source.  The seven column
+NAMES (`sDocId` … `sLineBox`) are the vocabulary of the statement; that they are the keys the
+source uses is an obligation decided on the generated tables (Lemmas/C14Consts.lean).
+
 Contracts (DESIGN §3.6): gzip and file objects are the identity on the text written; text mode
 reads with universal newlines (`univNl`); `sorted()` of file names / documents is the identity on
 the lists the harness feeds (DESIGN §9); the box of a Qhull hull is the box of the points (C09).
@@ -16,6 +23,7 @@ the lists the harness feeds (DESIGN §9); the box of a Qhull hull is the box of 
 import PagexmlModel.Basic.Err
 import PagexmlModel.Basic.PyInt
 import PagexmlModel.Model.C03
+import PagexmlModel.Generated.C14
 
 namespace Pagexml.C14
 open Pagexml.C03 (splitOn intercalate mkCoords Coords Pt)
@@ -82,10 +90,16 @@ def sDocBox : Str := ['d','o','c','_','b','o','x']
 def sRegionBox : Str := ['t','e','x','t','r','e','g','i','o','n','_','b','o','x']
 def sLineBox : Str := ['l','i','n','e','_','b','o','x']
 
+/-- the keys of every record, in insertion order (tied to `Generated.C14.recordKeys`) -/
 def baseHeaders : List Str := [sDocId, sRegionId, sLineId, sText]
+/-- the keys added with `add_bounding_box` (tied to `Generated.C14.recordBoxKeys`) -/
 def boxHeaders : List Str := [sDocBox, sRegionBox, sLineBox]
-/-- the default header list of `make_line_format_file` -/
-def allHeaders : List Str := baseHeaders ++ boxHeaders
+/-- the seven column names of the statement -/
+def columnNames : List Str := baseHeaders ++ boxHeaders
+/-- the keys of a record of `get_line_format_json`, in insertion order -/
+def recKeys (bbox : Bool) : List Str := baseHeaders ++ (if bbox then boxHeaders else [])
+/-- the default header list of `make_line_format_file` (`headers=None`): what the source says -/
+def allHeaders : List Str := Generated.C14.writerDefaultHeaders
 
 /-- f"{x},{y},{w},{h}" -/
 def bboxString (b : Box) : Str :=
@@ -199,8 +213,10 @@ def zipCols : List Str → List Str → Res (List (Str × Str))
 /-- a record read from a line file: header ↦ column -/
 abbrev DRec := List (Str × Str)
 
+/-- the default header list of `LineReader._iter_from_line_file` (no header line, no supplied
+    headers): what the source says -/
 def defaultHeaders (bbox : Bool) : List Str :=
-  baseHeaders ++ (if bbox then boxHeaders else [])
+  Generated.C14.readerDefaultHeaders ++ (if bbox then Generated.C14.readerBoxHeaders else [])
 
 /-- the row loop of `_iter_from_line_file` -/
 def rowsOf (headers : List Str) : LStream Str → LStream DRec
@@ -393,10 +409,12 @@ def Region.numWords (d : Region) : Nat :=
 def sNone : Str := ['N','o','n','e']
 
 /-- `pagexml_to_line_format` + `write_pagexml_to_line_format`:
-    f"{doc_id}\t{line_id}\t{line_text}\n" — a missing text is written as "None" -/
+    f"{doc_id}\t{line_id}\t{line_text}\n" (the literal parts as the source has them) — a missing
+    text is written as "None" -/
 def legacyWrite (docs : List Region) : Str :=
   docs.flatMap (fun d => d.allLines.flatMap (fun l =>
-    d.id ++ ['\t'] ++ l.id ++ ['\t'] ++ (l.text.getD sNone) ++ ['\n']))
+    d.id ++ Generated.C14.legacySepAfterDocId ++ l.id ++ Generated.C14.legacySepAfterLineId ++
+      (l.text.getD sNone) ++ Generated.C14.legacyLineEnd))
 
 /-- `{header: row[hi] if len(row) > hi else None for hi, header in enumerate(headers)}` -/
 def zipColsOpt : List Str → List Str → List (Str × Option Str)
